@@ -193,6 +193,10 @@ var (
 	oAims       = []string{"", "", "", "timeout", "timeout", "timeout", "msg", "dial", "retry", "retry"}
 	oOffsets    = []int{0, 0, 0, 0, 0, 0, -1, 1, -10, 10}
 	oTails      = []int{0, 0, 5, 11, 25}
+	// steps of the "timer race" flavour
+	oRaceKinds   = []string{"remove", "remove", "remove", "remove", "reconnect", "add"}
+	oRaceAims    = []string{"timeout", "timeout", "timeout", "timeout", "timeout", "retry", "retry", "msg", "dial"}
+	oRaceOffsets = []int{0, 0, 0, 0, 0, 0, -1, 1}
 )
 
 func genOAttempt(t *rapid.T) Attempt {
@@ -239,7 +243,7 @@ func genOverlap(t *rapid.T) *OScenario {
 	}
 	prev := 0
 	sc.Steps = rapid.SliceOfN(rapid.Custom(func(t *rapid.T) OStep {
-		s := OStep{Kind: rapid.SampledFrom(oStepKinds).Draw(t, "kind")}
+		s := OStep{}
 		// stay on the previous step's target more often than not: overlapping calls
 		// on ONE name are the interesting ones
 		if rapid.IntRange(0, 9).Draw(t, "same-target") < 6 {
@@ -249,6 +253,16 @@ func genOverlap(t *rapid.T) *OScenario {
 		}
 		prev = s.Target
 		s.AfterMs = rapid.SampledFrom(oGaps).Draw(t, "after")
+		if rapid.IntRange(0, 9).Draw(t, "timer-race") < 4 {
+			// a call racing one of the manager's own timers for the same target
+			s.Kind = rapid.SampledFrom(oRaceKinds).Draw(t, "kind")
+			s.Aim = rapid.SampledFrom(oRaceAims).Draw(t, "aim")
+			s.AimTarget = s.Target
+			s.OffsetMs = rapid.SampledFrom(oRaceOffsets).Draw(t, "offset")
+			s.Unsettled = rapid.IntRange(0, 9).Draw(t, "unsettled") < 9
+			return s
+		}
+		s.Kind = rapid.SampledFrom(oStepKinds).Draw(t, "kind")
 		s.Aim = rapid.SampledFrom(oAims).Draw(t, "aim")
 		if s.Aim != "" {
 			if rapid.IntRange(0, 3).Draw(t, "aim-own") < 3 {
